@@ -149,7 +149,7 @@ def isPow2 (n : Nat) : Bool := n != 0 && (n &&& (n - 1)) == 0
 /-- Block length the variant guarantees: 256, or `alphabet_size.next_power_of_two().max(2)`. -/
 def DA.blockLen (da : DA V) : Nat :=
   match da.variant with
-  | .bytewise => 256
+  | .bytewise => Gen.blockLen
   | .charwise => max 2 (Nat.nextPowerOfTwo da.alphaSize)
 
 /-- `BoundsInv`: every index stored anywhere in the tables (vacant elements included) is in
